@@ -178,9 +178,14 @@ def c09_scenarios(tier, seed):
     singles = [(st, fl) for st in (boundary if tier == "quick" else list(range(1, 256))) for fl in range(4)]
     for it in range(n + len(singles)):
         shape = rnd.choice(list(shapes))
+        # every 40th scenario: alfa's first command fails and the last task of a chain names a file that does not exist, so the run is
+        # aborted by that task's hash error after alfa has failed (a known finding: the error reported names the missing file only)
+        aborts = it < n and it % 40 == 0
+        if aborts:
+            shape = "chain"
         deps = shapes[shape]
         tasks = []
-        anyfail = rnd.random() < 0.8
+        anyfail = rnd.random() < 0.8 and not aborts
         single = singles[it - n] if it >= n else None      # exactly one failing command, every status of the pool, every flag
         target = rnd.choice(list(deps)) if single else None
         for name in deps:
@@ -196,12 +201,14 @@ def c09_scenarios(tier, seed):
                 style = "exit" if single else rnd.choice(["exit", "exit", "false", "missing", "signal", "subshell"])
                 cmds.append({"marker": "%s.%d" % (name, k + 1), "fails": fails, "status": status, "style": style})
             tasks.append({"name": name, "deps": deps[name], "cmds": cmds})
+        if aborts:
+            tasks[0]["cmds"][0].update(fails=True, style="exit", status=3)
         req = [rnd.choice(list(deps))] if rnd.random() < 0.5 else [list(deps)[-1]]
         text = ""
         files = [{"p": "proj/", "dir": True}]
         for t in tasks:
             files.append({"p": "proj/%s.txt" % t["name"], "c": t["name"]})
-            args = ['"%s.txt"' % t["name"]] + t["deps"]
+            args = ['"%s.txt"' % t["name"]] + (['"no-such-input.dat"'] if aborts and t["name"] == "carlo" else []) + t["deps"]
             text += "task %s(%s) {\n" % (t["name"], ", ".join(args))
             for c in t["cmds"]:
                 tail = {"exit": "; exit %d" % c["status"], "false": "; false", "missing": "; no-such-command-%s" % name, "signal": "; sh -c 'kill -KILL $$'",
@@ -212,16 +219,21 @@ def c09_scenarios(tier, seed):
         fl = flags[single[1]] if single else rnd.choice(flags)
         if single:
             req = [list(deps)[-1]]                           # the whole shape runs, so the failing command is reached
+        if aborts:
+            req, fl = ["carlo"], []
         scen.append({"id": len(scen) + 1, "files": files, "steps": [{"cwd": "proj", "argv": req + fl, "env": {}}, {"cwd": "proj", "argv": req, "env": {}}]})
-        meta.append({"tasks": [{"name": t["name"], "cmds": [{"marker": c["marker"], "fails": c["fails"]} for c in t["cmds"]]} for t in tasks], "req": req, "flags": fl, "shape": shape})
+        meta.append({"tasks": [{"name": t["name"], "cmds": [{"marker": c["marker"], "fails": c["fails"]} for c in t["cmds"]]} for t in tasks], "req": req, "flags": fl,
+                     "shape": "later-task-aborts" if aborts else shape})
     return scen, meta
 
 
 def rec_c09(s, mt, r):
     steps = []
     for st in r["steps"]:
-        text = st["stdout"] + st["stderr"]
-        steps.append(step_rec(st, extra={"mentioned": [t["name"] for t in mt["tasks"] if t["name"] in text]}))
+        # the error report: standard error, and any line of standard output that is an error line (the commands spok echoes while
+        # running contain the task names too and are not a report of the failure)
+        text = st["stderr"] + "\n".join(l for l in st["stdout"].split("\n") if l.startswith("Error"))
+        steps.append(step_rec(st, extra={"mentioned": [t["name"] for t in mt["tasks"] if '"%s"' % t["name"] in text or "'%s'" % t["name"] in text or (" " + t["name"] + " ") in text]}))
     return {"rel": "C09", "id": s["id"], "scen": {"tasks": mt["tasks"]}, "steps": steps}
 
 
@@ -289,7 +301,7 @@ def c13_scenarios(tier, seed):
     rnd = random.Random(seed)
     scen, meta = [], []
 
-    def add(vars_, cmds):
+    def add(vars_, cmds, tag="", after=None):
         text = ""
         for v in vars_:
             if v["kind"] == "str":
@@ -305,9 +317,11 @@ def c13_scenarios(tier, seed):
                 line += p["s"] if p["k"] == "lit" else ("{{.%s}}" % p["s"] if p["k"] == "t" else "$" + p["s"])
             text += "    " + line + "\n"
         text += "}\n"
+        if after:                                  # the same name assigned again BELOW the task
+            text += '\n%s := "%s"\n' % after
         files = [{"p": "proj/", "dir": True}, {"p": "proj/spokfile", "c": text}, {"p": "proj/.env", "c": DOTENV}]
         scen.append({"id": len(scen) + 1, "files": files, "steps": [{"cwd": "proj", "argv": ["t", "--json"], "env": AMBIENT}]})
-        meta.append({"vars": vars_, "cmds": cmds})
+        meta.append({"vars": vars_, "cmds": cmds, "tag": tag})
 
     def mkvar(name, kind, x):
         if kind == "str":
@@ -336,6 +350,13 @@ def c13_scenarios(tier, seed):
         for val in VALS:
             vs = [mkvar(n, "str", val)]
             add(vs, cmds_for(vs))
+    # names the shell interpreter itself maintains (a known finding: the interpreter's value wins)
+    for n in ("PWD", "IFS", "OPTIND"):
+        vs = [mkvar(n, "str", "v")]
+        add(vs, cmds_for(vs), tag="reserved-" + n)
+    # a variable assigned a second time below the task that uses it: the task is written against the first value
+    vs = [mkvar("FRESHV", "str", "first")]
+    add(vs, cmds_for(vs), tag="reassigned-below", after=("FRESHV", "second"))
     # join / exec on every name
     for n in NAMESV:
         for args in ([], ["bin"], ["out", "x.txt"], ["a", "b", "c"], ["a/", "b"], ["./a", "b"], ["a", "..", "b"], ["a//b", "."], ["..", "x"], ["a/./b/../c"], ["../.."]):
@@ -396,7 +417,7 @@ def run_c13(ctx):
     st = selftest(ctx, [r for i, r in enumerate(recs) if i not in set(bad)], "C13")
     report_bad(ctx, "C13", bad, recs, scen, meta, lambda i: "vars=%s: exit=%s observed cmds=%s %s" % (
         [(v["name"], v["kind"], v["val"] or v["args"] or v["cmd"]) for v in meta[i]["vars"]], recs[i]["steps"][0]["exit"], recs[i]["cmds"][:4], recs[i]["stderr"][-120:]),
-        lambda i: "%s/%s" % ("+".join(sorted({v["kind"] for v in meta[i]["vars"]})), "+".join(sorted({"amb" if v["name"] in ("AMBV", "BOTHV") else ("dot" if v["name"] == "DOTV" else "fresh") for v in meta[i]["vars"]}))))
+        lambda i: meta[i].get("tag") or "%s/%s" % ("+".join(sorted({v["kind"] for v in meta[i]["vars"]})), "+".join(sorted({"amb" if v["name"] in ("AMBV", "BOTHV") else ("dot" if v["name"] == "DOTV" else "fresh") for v in meta[i]["vars"]}))))
     lay = [c["stdout"] for r in recs for c in r["cmds"] if c["cmd"] == LAYER_CMD]
     layering = {"command": LAYER_CMD, "runs": len(lay), "as_modelled": sum(1 for x in lay if x == LAYER_EXPECT),
                 "note": "ambient wins over .env for variables the spokfile does not define (observed behaviour, not part of C13)"}
@@ -744,7 +765,7 @@ def report_bad(ctx, rel, bad, recs, scen, meta, describe, shape):
             continue
         vlib.report(ctx, "Conforms_%s:%s" % (rel, sh), "Conforms_%s fails: %s" % (rel, describe(i)),
                     {"property": rel, "family": "cli", "scenario": scen[i], "meta": meta[i], "observed": slim_rec(rec2)})
-        if len(seen) >= 6:
+        if len(ctx.violations) >= 6:            # known findings do not use up the quota
             break
 
 
